@@ -1722,4 +1722,63 @@ theorem reader_progress {s : Disk} (h : DInv s) {r : DReader} (hr : r ∈ s.read
       rw [hpe] at hfn
       simp [ho, ha, hprev, hfs, hfn, hpe]
 
+/-! ### the abstraction: the index holds a suffix of the written history -/
+
+theorem flatMap_eq_hist_drop (hbase : Nat) (hist : Bytes) :
+    ∀ (l : List DSeg), l ≠ [] → Contig l →
+      (∀ g ∈ l, hbase ≤ g.left ∧ g.right ≤ hbase + hist.length ∧
+          g.data = (hist.drop (g.left - hbase)).take g.data.length) →
+      lastRight l = some (hbase + hist.length) →
+      ∀ f, firstLeft l = some f → l.flatMap (·.data) = hist.drop (f - hbase) := by
+  intro l
+  induction l with
+  | nil => intro h; exact absurd rfl h
+  | cons g t ih =>
+    intro _ hc he hl f hf
+    simp [firstLeft] at hf; subst hf
+    obtain ⟨e1, e2, e3⟩ := he g (by simp)
+    cases t with
+    | nil =>
+      simp [lastRight] at hl
+      simp only [List.flatMap_cons, List.flatMap_nil, List.append_nil]
+      rw [e3, List.take_of_length_le]
+      simp only [DSeg.right] at hl
+      simp; omega
+    | cons h rest =>
+      rw [lastRight_cons_cons] at hl
+      have ih' := ih (by simp) hc.2 (fun x hx => he x (List.mem_cons_of_mem _ hx)) hl h.left rfl
+      simp only [List.flatMap_cons] at ih' ⊢
+      rw [ih', e3]
+      have hgh : g.left - hbase + g.data.length = h.left - hbase := by
+        have := hc.1
+        simp only [DSeg.right] at this
+        omega
+      rw [← hgh, ← List.drop_drop]
+      exact List.take_append_drop _ _
+
+theorem abs_bytes_eq {s : Disk} (h : DInv s) (hne : s.all ≠ []) :
+    s.hbase ≤ s.abs.base ∧ s.abs.bytes = s.hist.drop (s.abs.base - s.hbase) := by
+  cases hfl : firstLeft s.all with
+  | none =>
+    cases hall : s.all with
+    | nil => exact absurd hall hne
+    | cons a t => rw [hall] at hfl; simp [firstLeft] at hfl
+  | some f =>
+    have hlr : lastRight s.all = some (s.hbase + s.hist.length) := by
+      cases hl : lastRight s.all with
+      | none => exact absurd (lastRight_eq_none.mp hl) hne
+      | some r => rw [h.lastEnd r hl]
+    have hb : s.abs.base = f := by simp [Disk.abs, hfl]
+    have hfm : ∃ g ∈ s.all, g.left = f := by
+      cases hall : s.all with
+      | nil => exact absurd hall hne
+      | cons a t =>
+        rw [hall] at hfl
+        simp [firstLeft] at hfl
+        exact ⟨a, by simp, hfl⟩
+    obtain ⟨g, hg, hgl⟩ := hfm
+    refine ⟨by rw [hb, ← hgl]; exact (h.embed g hg).1, ?_⟩
+    rw [hb]
+    exact flatMap_eq_hist_drop s.hbase s.hist s.all hne h.contig h.embed hlr f hfl
+
 end GunYu.Store
